@@ -226,8 +226,14 @@ def run(ctx):
             cs_eff, cc_eff = eff(visit, s)
             jobs.append((s.key, am.residual(s.syscond, cs_eff, cc_eff), H.int_ops(s), hits[0]["table"], Nbox))
         nproc = min(16, os.cpu_count() or 1)
+        too_big = [j[0] for j in jobs if len(j[1]) > 3000000]
+        if too_big:
+            raise AnalysisError("the residual reflection-condition expression of %s is too large to evaluate (%d settings)" % (too_big[0], len(too_big)))
         with Pool(nproc) as pool:
-            results = pool.map(_setting_job, jobs, chunksize=4)
+            try:
+                results = pool.map_async(_setting_job, jobs, chunksize=4).get(timeout=900)
+            except Exception as e:            # a worker that died (or a time-out) must not hang the check
+                raise AnalysisError("evaluation of the residual expressions on the cone points failed: %s" % type(e).__name__)
         for key, npts, nabs, missing, extra in results:
             s = by_key[key]
             total_pts += npts
